@@ -10,6 +10,7 @@ import (
 	"runtime"
 	"strings"
 	"sync"
+	"time"
 
 	"filippo.io/age"
 
@@ -43,6 +44,9 @@ type C20Plan struct {
 	Procs int    `json:"procs,omitempty"`
 	Iters int    `json:"iters,omitempty"`
 	GSeed uint64 `json:"gseed,omitempty"`
+	// race mode, a few runs per batch: every goroutine encrypts to and decrypts with ONE passphrase recipient/identity
+	// pair at a realistic work factor (tens of MiB and a fraction of a second per derivation), once
+	HeavyWF int `json:"heavy_wf,omitempty"`
 }
 
 type C20 struct{}
@@ -70,7 +74,7 @@ func (C20) Meta() core.Meta {
 		Real:        []string{"filippo.io/age Encrypt/Decrypt", "X25519/scrypt/ssh-ed25519/ssh-rsa recipients and identities shared between tasks", "internal/stream"},
 		Stub:        []string{"task scheduler (baton passing)", "per-task tape behind one routed crypto/rand.Reader", "per-task destination and source"},
 		FaultKinds:  []string{},
-		Probes:      []string{"probe.task_switches", "probe.switch_inside_wrap", "probe.shared_x25519", "probe.shared_scrypt", "probe.shared_ssh_ed25519", "probe.shared_ssh_rsa", "probe.race_runs", "probe.race_goroutines", "probe.race_detector_missing", "probe.statement_level_schedules", "probe.statement_yields", "probe.shared_identity_slice", "probe.common_key_at_varied_positions", "probe.pct_schedules", "probe.same_file_opened_by_all"},
+		Probes:      []string{"probe.task_switches", "probe.switch_inside_wrap", "probe.shared_x25519", "probe.shared_scrypt", "probe.shared_ssh_ed25519", "probe.shared_ssh_rsa", "probe.race_runs", "probe.race_goroutines", "probe.race_detector_missing", "probe.statement_level_schedules", "probe.statement_yields", "probe.shared_identity_slice", "probe.common_key_at_varied_positions", "probe.pct_schedules", "probe.same_file_opened_by_all", "probe.race_heavy_passphrase_runs"},
 	}
 }
 
@@ -101,6 +105,18 @@ func (C20) Generate(r *core.RNG, tier string, idx uint64) interface{} {
 			}
 		}
 		p.Common = r.Chance(1, 3)
+		if idx%750 == 4 {
+			p.HeavyWF = r.Pick(14, 15, 15)
+			p.Procs, p.Iters, p.Ring, p.Layout, p.Common = 16, 1, false, false, false
+			p.Tasks = p.Tasks[:0]
+			for i := 0; i < 24; i++ {
+				t := C20Task{Op: "enc"}
+				t.File.PSeed = uint64(i)
+				t.File.PLen = 100
+				t.File.Recips = []lib.Recip{{Key: &world.Key{T: "s", K: 0, WF: p.HeavyWF}}}
+				p.Tasks = append(p.Tasks, t)
+			}
+		}
 		return p
 	}
 	p.Mode = "sched"
@@ -219,6 +235,9 @@ func c20Recips(r *core.RNG) []lib.Recip {
 
 func (C20) Shrinks(plan interface{}) []interface{} {
 	p := plan.(*C20Plan)
+	if p.HeavyWF > 0 {
+		return nil // (fewer goroutines or a cheaper derivation is another scenario, not a smaller one)
+	}
 	var out []interface{}
 	cp := func() *C20Plan {
 		q := *p
@@ -407,6 +426,19 @@ func (so *sharedObjs) recipients(rs []lib.Recip) []age.Recipient {
 
 func (e C20) Execute(plan interface{}, c *core.Ctx) *core.Verdict {
 	p := plan.(*C20Plan)
+	if p.Mode == "race" && p.HeavyWF > 0 && RaceEnabled {
+		// the heavy passphrase runs are about waiting, not about memory accesses: they run in the binary built
+		// without the race detector (whose tenfold slowdown of a 32 MiB derivation would eat the deadline's margin)
+		bin := os.Getenv("AGESIM_AST_BIN")
+		if bin == "" {
+			return core.Fail("harness", "heavy race runs need the binary built without -race (AGESIM_AST_BIN; use ./check C20 ...)")
+		}
+		v, err := core.RemoteExecute(bin, "C20", p, c)
+		if err != nil {
+			return core.Fail("harness", "%v", err)
+		}
+		return v
+	}
 	if p.Mode == "race" {
 		return e.execRace(p, c)
 	}
@@ -701,7 +733,9 @@ func (e C20) execRace(p *C20Plan, c *core.Ctx) *core.Verdict {
 }
 
 func (e C20) execRaceOnce(p *C20Plan, c *core.Ctx) *core.Verdict {
-	if !RaceEnabled || raceLogSize() < 0 {
+	if p.HeavyWF > 0 && !RaceEnabled {
+		// (no race log to look at in this binary: results and termination only)
+	} else if !RaceEnabled || raceLogSize() < 0 {
 		c.Stats.Inc("probe.race_detector_missing")
 		return core.Fail("harness", "race stage needs the -race build and AGESIM_RACE_LOG (use ./check C20 ...)")
 	}
@@ -824,8 +858,50 @@ func (e C20) execRaceOnce(p *C20Plan, c *core.Ctx) *core.Verdict {
 			}
 		}()
 	}
+	// every operation alone takes milliseconds (a fraction of a second per passphrase derivation in the heavy runs,
+	// measured here on this machine, now): goroutines that have not finished after 60 times one operation (at least
+	// 45 s) are not slow, they wait for each other. On a machine too slow for that to fit the budget of a run the
+	// timeout is harness trouble, not a verdict.
+	limit, judge := 90*time.Second, true
+	if p.HeavyWF > 0 {
+		t0 := time.Now()
+		k := world.Key{T: "s", K: 1, WF: p.HeavyWF}
+		var one bytes.Buffer
+		w, err := age.Encrypt(&one, world.Recipient(k))
+		if err != nil {
+			return core.Fail("harness", "heavy run, operation alone: %v", err)
+		}
+		w.Write([]byte("alone"))
+		w.Close()
+		if r, err := age.Decrypt(&one, world.Identity(k)); err != nil {
+			return core.Fail("harness", "heavy run, operation alone: %v", err)
+		} else {
+			io.ReadAll(r)
+		}
+		t1 := time.Since(t0)
+		limit = 60 * t1
+		if limit < 45*time.Second {
+			limit = 45 * time.Second
+		}
+		if limit > 100*time.Second {
+			limit, judge = 100*time.Second, false
+		}
+	}
 	close(start)
-	wg.Wait()
+	finished := make(chan struct{})
+	go func() { wg.Wait(); close(finished) }()
+	select {
+	case <-finished:
+	case <-time.After(limit):
+		if !judge {
+			return core.Fail("harness", "heavy run on an overloaded machine: not finished after %v, one operation alone took more than 1.6 s", limit)
+		}
+		return core.Fail("C20.hang", "%d goroutines sharing key objects (GOMAXPROCS=%d, %d iteration(s) each, passphrase work factor %d) have not finished after %v (60 times what one such operation took alone just before, at least 45 s): they wait for each other", len(p.Tasks), p.Procs, p.Iters, p.HeavyWF, limit.Round(time.Second))
+	}
+	if p.HeavyWF > 0 {
+		c.Stats.Inc("probe.race_heavy_passphrase_runs")
+		c.Log.Add("heavy passphrase run: wf=%d, %d goroutines", p.HeavyWF, len(p.Tasks))
+	}
 	c.Stats.Inc("probe.race_runs")
 	c.Stats.Add("probe.race_goroutines", int64(len(p.Tasks)))
 	c.Stats.Eval(fmt.Sprintf("race|%d|%d|%d|%d", len(p.Tasks), p.Procs, p.Iters, p.GSeed), true)
@@ -856,7 +932,7 @@ func (e C20) execRaceOnce(p *C20Plan, c *core.Ctx) *core.Verdict {
 			}
 		}
 	}
-	if after := raceLogSize(); after > before {
+	if after := raceLogSize(); RaceEnabled && after > before {
 		return core.Fail("C20.data_race", "the race detector reported a data race while %d goroutines shared recipient/identity objects: %s", len(p.Tasks), strings.ReplaceAll(raceLogTail(), "\n", " | "))
 	}
 	return nil
